@@ -101,6 +101,12 @@ def run(tier, seed):
         else:
             ops = ops_big if cfg['tol'] == 0 else bmm.grid_ops(bmm.G10)
             units += ex.bfs_units(cfg, entropy, ops, 3, split=True, **common)
+    # deep trees: two long sequential sweeps in different halves, then everything again backwards
+    deep_hist = [['q', 0.5, 1.0], ['sweepF', 0.0, 70, 0.005], ['sweepF', 0.5, 70, 0.005], ['sweepB', 0.5, 70, 0.005],
+                 ['sweepB', 0.0, 70, 0.005]]
+    for levy, cache in [('space-time', 45), ('foster', 2), ('none', None)]:
+        cfg = bmm.cfg_make(size=(2, 2), levy=levy, cache_size=cache)
+        units.append(dict(kind='bfs', cfg=cfg, entropy=entropy, alphabet=[], prefix=deep_hist, depth=5, **common))
     # solver-shaped histories crossing the warm-up, with deviations
     dev_cfgs = [bmm.cfg_make(size=(2, 2), levy=levy, cache_size=cache, dt=dt)
                 for levy, cache, dt in [('none', 45, None), ('space-time', 45, None), ('foster', 45, None),
